@@ -2,6 +2,7 @@ package rules
 
 import (
 	"fmt"
+	"sort"
 	"go/token"
 
 	"golang.org/x/tools/go/ssa"
@@ -39,6 +40,7 @@ func runC07(c *core.Ctx) {
 	c06Limit(c, "C07.R6")
 	c06Survey(c, "C07.R7")
 	c06R2(c) // shared with C06 (reported as C06.R2)
+	nilGossiperRule(c, "C07.R8")
 }
 
 func allowConst(c *core.Ctx, name string) int64 {
@@ -347,5 +349,84 @@ func c07R3(c *core.Ctx) {
 			ok = isCall && ok2
 		}
 		c.Check(ok, rule, fnName(g)+":SUBACK after replay", g.Pos(), "the SUBACK is written after every OnSubscribe call returned", "the SUBACK is not written after the synchronous OnSubscribe calls on every path")
+	}
+}
+
+// nilGossiperRule: a broker without a `cluster` section hands the surveyor a typed-nil
+// *cluster.Swarm (broker.NewService stores s.cluster, assigned only under cfg.Cluster != nil,
+// into survey.New's gossiper interface). Surveyor.Query runs in that configuration too — every
+// history replay (SSD.Query) and presence status goes through it — so every gossiper method
+// it invokes must be nil-safe in (*Swarm): no access to a receiver field that is not cut off
+// by `s != nil`. (Defect D16: Swarm.ID was not; a SUBSCRIBE with a load key ended the
+// connection on a stand-alone broker.)
+func nilGossiperRule(c *core.Ctx, rule string) {
+	c.Rule(rule, "stand-alone configuration: the gossiper methods Surveyor.Query invokes are nil-receiver safe in (*cluster.Swarm) (every receiver field access is cut off by s != nil), because broker.NewService passes the possibly-nil s.cluster to survey.New", 2)
+	q := fn(c, rule, "internal/service/survey", "Surveyor", "Query")
+	if q == nil {
+		return
+	}
+	invoked := map[string]ssa.Instruction{}
+	eng.Instrs(q, func(in ssa.Instruction) {
+		ci, ok := in.(ssa.CallInstruction)
+		if !ok || !ci.Common().IsInvoke() {
+			return
+		}
+		if _, isGossip := eng.LoadOfField(ci.Common().Value, "gossip"); isGossip {
+			invoked[ci.Common().Method.Name()] = in
+		}
+	})
+	if len(invoked) == 0 {
+		c.Undecided(rule, fnName(q)+":gossiper calls", q.Pos(), "Surveyor.Query no longer invokes its gossiper (update the rule)")
+		return
+	}
+	// is the gossiper possibly nil? (NewService passes the cluster field)
+	passesField := false
+	if ns := fn(c, rule, "internal/broker", "", "NewService"); ns != nil {
+		for _, call := range eng.Calls(ns, false, M+"service/survey.New") {
+			a := eng.CallArgs(call.Common())
+			v := a[1]
+			if mi, ok := v.(*ssa.MakeInterface); ok {
+				v = mi.X
+			}
+			if _, isCl := eng.LoadOfField(v, "cluster"); isCl {
+				passesField = true
+			}
+		}
+	}
+	if !passesField {
+		c.OK(rule, "gossiper never nil", q.Pos(), "broker.NewService does not pass the optional cluster field to survey.New any more; nil-safety is not needed")
+		return
+	}
+	var names []string
+	for n := range invoked {
+		names = append(names, n)
+	}
+	sort.Strings(names)
+	for _, n := range names {
+		m := c.P.Func("internal/service/cluster", "Swarm", n)
+		if m == nil || m.Blocks == nil {
+			c.Undecided(rule, "anchor:Swarm."+n, token.NoPos, "anchor missing: (*cluster.Swarm)."+n)
+			continue
+		}
+		recv := ssa.Value(m.Params[0])
+		notNil := eng.EqPred("s != nil", false, func(x, y ssa.Value) bool { return x == recv && eng.IsNilConst(y) })
+		bad := ""
+		var w []string
+		eng.Instrs(m, func(in ssa.Instruction) {
+			fa, ok := in.(*ssa.FieldAddr)
+			if !ok || fa.X != recv || bad != "" {
+				return
+			}
+			if g := eng.Guarded(in, notNil); !(g.Guarded && g.Edges > 0) {
+				_, fl, _, _ := eng.FieldOf(fa)
+				bad, w = fl, g.Witness
+			}
+		})
+		key := fmt.Sprintf("(*cluster.Swarm).%s:nil-receiver safe", n)
+		if bad == "" {
+			c.OK(rule, key, m.Pos(), "every receiver field access is behind s != nil")
+		} else {
+			c.Fail(rule, key, m.Pos(), "Surveyor.Query calls "+n+"() on its gossiper, which is a nil *Swarm on a broker without a cluster section, and "+n+" reads s."+bad+" without a nil test: history replay on SUBSCRIBE and presence status panic on the connection's goroutine and the connection is closed instead of answered", w...)
+		}
 	}
 }
